@@ -38,6 +38,7 @@ Op ==
     \/ "get" \in OpSet /\ \E k \in Keys : Get(k)
     \/ "sload" \in OpSet /\ \E k \in Keys : SLoad(k)
     \/ "fetch" \in OpSet /\ S.nv < MaxIns /\ \E k \in Keys : Fetch(k)
+    \/ "probation" \in OpSet /\ MarkProbation
     \/ "clear" \in OpSet /\ Clear
     \/ "evict_all" \in OpSet /\ EvictAll
     \/ "evict_all_nt" \in OpSet /\ EvictAllNoTurn
